@@ -48,6 +48,77 @@ class Choice:
         return 'choice(%r ? %r : %r)' % (self.cond, self.a, self.b)
 
 
+class Lin:
+    """A symbolic integer / address: sum of coef * symbol plus a constant (`data(v) + size(v) - 4`).  Sums,
+    differences and products with an integer stay exact; a comparison is decided when the difference of its
+    sides is a constant and is UNKNOWN otherwise.  A value without symbols is a plain int (see `make`)."""
+    __slots__ = ('terms', 'const')
+
+    def __init__(self, terms, const=0):
+        self.terms = {k: v for k, v in terms.items() if v}
+        self.const = const
+
+    @staticmethod
+    def sym(name):
+        return Lin({name: 1})
+
+    @staticmethod
+    def make(terms, const):
+        terms = {k: v for k, v in terms.items() if v}
+        return Lin(terms, const) if terms else const
+
+    @staticmethod
+    def lift(v):
+        if isinstance(v, Lin):
+            return v
+        if isinstance(v, Enum):
+            v = v.value
+        if isinstance(v, bool) or not isinstance(v, int):
+            return None
+        return Lin({}, v)
+
+    @staticmethod
+    def op(op, a, b):
+        a, b = Lin.lift(a), Lin.lift(b)
+        if a is None or b is None:
+            return UNKNOWN
+        if op in ('+', '-'):
+            sg = 1 if op == '+' else -1
+            t = dict(a.terms)
+            for k, v in b.terms.items():
+                t[k] = t.get(k, 0) + sg * v
+            return Lin.make(t, a.const + sg * b.const)
+        if op == '*':
+            if a.terms and b.terms:
+                return UNKNOWN
+            if a.terms:
+                a, b = b, a
+            return Lin.make({k: v * a.const for k, v in b.terms.items()}, a.const * b.const)
+        if op in ('==', '!=', '<', '>', '<=', '>='):
+            d = Lin.op('-', a, b)
+            if isinstance(d, Lin):
+                return UNKNOWN
+            return {'==': d == 0, '!=': d != 0, '<': d < 0, '>': d > 0, '<=': d <= 0, '>=': d >= 0}[op]
+        return UNKNOWN
+
+    def __eq__(self, o):
+        return isinstance(o, Lin) and o.terms == self.terms and o.const == self.const
+
+    def __hash__(self):
+        return hash((tuple(sorted(self.terms.items())), self.const))
+
+    def __repr__(self):
+        parts = ['%s%s' % ('' if v == 1 else ('-' if v == -1 else '%d*' % v), k) for k, v in sorted(self.terms.items())]
+        if self.const or not parts:
+            parts.append(str(self.const))
+        return ' + '.join(parts).replace('+ -', '- ')
+
+
+def undecided(v):
+    """Is v a value on which a branch cannot be decided (unknown, a two-valued choice, or symbolic)?"""
+    return v is UNKNOWN or isinstance(v, (Choice, Lin))
+
+
 class Outcome:
     __slots__ = ('kind', 'value', 'at', 'trace', 'func')
 
@@ -139,7 +210,7 @@ class Evaluator:
         if k == 'UnaryOperator':
             v = self.ev(children(n)[0], env)
             op = n.get('opcode')
-            if v is UNKNOWN or isinstance(v, Choice):
+            if undecided(v):
                 return UNKNOWN
             if op == '!':
                 return not self.truth(v)
@@ -153,22 +224,22 @@ class Evaluator:
             c = children(n)
             if op == '&&':
                 a = self.ev(c[0], env)
-                if a is not UNKNOWN and not isinstance(a, Choice) and not self.truth(a):
+                if not undecided(a) and not self.truth(a):
                     return False
                 b = self.ev(c[1], env)
-                if b is not UNKNOWN and not isinstance(b, Choice) and not self.truth(b):
+                if not undecided(b) and not self.truth(b):
                     return False
-                if a is UNKNOWN or b is UNKNOWN or isinstance(a, Choice) or isinstance(b, Choice):
+                if undecided(a) or undecided(b):
                     return UNKNOWN
                 return True
             if op == '||':
                 a = self.ev(c[0], env)
-                if a is not UNKNOWN and not isinstance(a, Choice) and self.truth(a):
+                if not undecided(a) and self.truth(a):
                     return True
                 b = self.ev(c[1], env)
-                if b is not UNKNOWN and not isinstance(b, Choice) and self.truth(b):
+                if not undecided(b) and self.truth(b):
                     return True
-                if a is UNKNOWN or b is UNKNOWN or isinstance(a, Choice) or isinstance(b, Choice):
+                if undecided(a) or undecided(b):
                     return UNKNOWN
                 return False
             a = self.ev(c[0], env)
@@ -177,7 +248,7 @@ class Evaluator:
         if k == 'ConditionalOperator':
             c = children(n)
             cv = self.ev(c[0], env)
-            if cv is UNKNOWN or isinstance(cv, Choice):
+            if undecided(cv):
                 return Choice(self.describe(c[0]), self.ev(c[1], env), self.ev(c[2], env))
             return self.ev(c[1], env) if self.truth(cv) else self.ev(c[2], env)
         if k == 'CXXOperatorCallExpr':
@@ -211,6 +282,8 @@ class Evaluator:
     def binop(self, op, a, b):
         if a is UNKNOWN or b is UNKNOWN or isinstance(a, Choice) or isinstance(b, Choice):
             return UNKNOWN
+        if isinstance(a, Lin) or isinstance(b, Lin):
+            return Lin.op(op, a, b)
         av = a.value if isinstance(a, Enum) else a
         bv = b.value if isinstance(b, Enum) else b
         if av is None or bv is None:
@@ -335,7 +408,7 @@ class Evaluator:
             then = rest[0] if rest else None
             els = rest[1] if len(rest) > 1 else None
             branches = []
-            if cv is UNKNOWN or isinstance(cv, Choice):
+            if undecided(cv):
                 branches = [(True, then), (False, els)]
             elif self.truth(cv):
                 branches = [(True, then)]
@@ -372,7 +445,7 @@ class Evaluator:
                         x = cc[-1]
                 flat.append((labels, x))
             entries = []
-            if cv is UNKNOWN or isinstance(cv, Choice):
+            if undecided(cv):
                 entries = [i for i, (l, _) in enumerate(flat) if l]
                 entries.append(None)  # no label matches and no default
             else:
@@ -388,7 +461,7 @@ class Evaluator:
             for ent in entries:
                 self._bump()
                 if ent is None:
-                    if any('default' in l for l, _ in flat) and (cv is UNKNOWN or isinstance(cv, Choice)):
+                    if any('default' in l for l, _ in flat) and (undecided(cv)):
                         continue
                     yield None, env
                     continue
